@@ -1101,6 +1101,23 @@ func (e *Exec) bootstrap(st *Step) {
 		e.viol("C08", "export.bad_json", "", "export is not a JSON object: %v", err)
 		return
 	}
+	// the same state exported by another replica (different configuration, restart history) gives the same custom sections
+	for _, r := range e.R[1:] {
+		if r.Boot || r.Dead || !r.Up || r.Applied != h || r.inBlock {
+			continue
+		}
+		if ax, _, ok := e.exportFrom(r.Node, fmt.Sprintf("replica %d", r.ID)); ok {
+			sx, _ := customSections(ax)
+			for _, mod := range customGenesisModules {
+				if sx[mod] != secs[mod] {
+					e.viol("C09", "replica.export_differs."+mod, "", "replica %d (config %+v, restarts %d) exports a different %s genesis section than the reference replica at height %d", r.ID, r.Cfg, r.Restarts, mod, h)
+					return
+				}
+			}
+			e.Stats.Inc("probe.export_compared_across_replicas")
+		}
+		break
+	}
 	// C11: in the exported DID registry every active entry's key equals its document id
 	var dg didtypes.GenesisState
 	if secs["did"] != "" && e.Env.Cdc.UnmarshalJSON([]byte(secs["did"]), &dg) == nil {
